@@ -452,7 +452,8 @@ func runScenario(d *Driver, sc Scenario, timeout time.Duration, oracle bool, res
 		if r4[0] != implOut {
 			return diverge(i, "reply", implOut, r4[0]), false, obs
 		}
-		if t := "trace1 " + traceLine(l1); strings.TrimSpace(t) != strings.TrimSpace(r4[1]) {
+		// (the in-process backend has no request stream to observe)
+		if t := "trace1 " + traceLine(l1); sc.Stack.L1 != "inmem" && strings.TrimSpace(t) != strings.TrimSpace(r4[1]) {
 			return diverge(i, "L1 requests", t, r4[1]), false, obs
 		}
 		if t := "trace2 " + traceLine(l2); strings.TrimSpace(t) != strings.TrimSpace(r4[2]) {
